@@ -20,6 +20,7 @@ FIXES = [  # (commit, property, expected class prefix, VSIM_COUNT)
     ('a1b0222', 'C18', 'J1-unexpected-exception', 200),
     ('fe95524', 'C03', 'V-result-depends-on-history', 2400),
     ('979adeb', 'C14', 'R-', 3200),
+    ('901b2bf', 'C14', 'R-tolerance-not-met', 3200),
 ]
 
 
